@@ -36,3 +36,12 @@ func init() {
 			Old: "\tlogging.VPrint(logging.DEBUG, \"clear bucket item\",\n\t\tlogging.LogFormat{\n\t\t\t\"key\":    string(iter.Key()),\n\t\t\t\"bucket\": b.path,\n\t\t\t\"num\":    batch.Len(),\n\t\t})\n", New: ""},
 	}
 }
+
+func init() {
+	variants["C19"] = append(variants["C19"],
+		variant{Name: "write-transaction FetchBucket resolves buckets that do not exist", Kill: true, Rule: "C19-EXIST", File: fLDB,
+			Old: "\tpath := joinBucketPath(meta.Paths()...)\n\tkey := []byte(joinBucketPath(bucketNameBucket, path))\n\t_, err := tx.tr.Get(key, nil) // value == name\n\tif err != nil {", New: "\tpath := joinBucketPath(meta.Paths()...)\n\tkey := []byte(joinBucketPath(bucketNameBucket, path))\n\t_, err := tx.tr.Get(key, nil) // value == name\n\tif err != nil && err != leveldb.ErrNotFound {"},
+		variant{Name: "read bucket's Bucket() ignores a name mismatch only", Kill: false, File: fLDB,
+			Old: "\tvalue, err := b.ldb.Get(key, nil) // value == name\n\tif err != nil || string(value) != name {\n\t\treturn nil\n\t}", New: "\tvalue, err := b.ldb.Get(key, nil) // value == name\n\tif err != nil {\n\t\treturn nil\n\t}\n\tif string(value) != name {\n\t\treturn nil\n\t}"},
+	)
+}
